@@ -176,6 +176,7 @@ func checkC05(c *core.Ctx) error {
 	checkHouseholderVector(c)
 	checkFactorAccumulation(c)
 	checkEigenvectorStale(c)
+	checkScratchSupport(c)
 	return nil
 }
 
